@@ -18,22 +18,23 @@
    configuration whose class factory has a default for every field, every converter satisfying the
    round-trip law on the values of `o`:
    - C01_roundtrip_S4: for EVERY event stream that reads as the document (any attribute order, any
-     prefix maps, indentation white space), when no class of the fragment has an attribute MAP
-     (`nomaps_u`: a dict comes back in the order the attributes were reported);
+     prefix maps, indentation white space), when no class of the fragment has an attribute MAP or a
+     WILDCARD field (`nomaps_u`: a dict comes back in the order the attributes were reported);
    - C01_roundtrip_ordered_S5_partial: the same for every event stream that keeps the attribute
-     order (`reads_o true`: what XML readers deliver), attribute maps (xs:anyAttribute) and xs:anyType
-     elements holding a str included;
+     order (`reads_o true`: what XML readers deliver), attribute maps (xs:anyAttribute), wildcard fields
+     (xs:any) holding generic elements and xs:anyType elements holding a str included;
    - C01_roundtrip_pump_S4 (canonical stream, attribute maps included), C01_document_parses_S4 /
      _native_S4 / _lxml_S4 (through C03's writers down to the printed document).
    Proved slices: S1-S4 (attributes, elements, Text, nesting, lists, tokens, wrappers, sequence groups,
    namespaces), QName values of elements / attributes / Text, recursive class graphs, subclass instances
    announced by xsi:type, nillable fields and classes, and of S5 (generic content) xs:anyType elements
-   holding a str and attribute maps.  The forms that go through `pump` or through C03's writers are
+   holding a str, attribute maps and wildcard fields holding AnyElement trees (names, attributes, text,
+   nested children; no mixed content).  The forms that go through `pump` or through C03's writers are
    stated for instances without QName values (`noq o`) and without xsi:type (`exact_classes`): under a
    user prefix map that binds the default namespace a QName without namespace is written bare and read
    back inside that namespace (C01_qname_default_ns_refuted, finding C01-F3).  The rest of the
-   quantifier (wildcards holding AnyElement trees, compound fields, unions, DerivedElement, QName token
-   lists, a wrapped list inside a sequence group) is covered by the correspondence and the oracle of
+   quantifier (mixed content and other values in wildcard fields, compound fields, unions, DerivedElement,
+   QName token lists, a wrapped list inside a sequence group) is covered by the correspondence and the oracle of
    harness/c01.py only. *)
 From Coq Require Import NArith ZArith List Bool.
 From XV Require Import Base.Str Base.Eqb Base.PyInt Spec.XmlNs Model.Bind Model.WriterBridge Spec.Fits Model.RoundtripCorr
@@ -65,8 +66,9 @@ Theorem C01_roundtrip_S4 : forall cfg c u ok ign n cls o,
 Proof. intros. eapply (roundtrip_reads cfg c u ok ign H H0 false); try eassumption. right. assumption. Qed.
 Print Assumptions C01_roundtrip_S4.
 
-(* ---- slice S5 (generic content), partial: attribute maps (xs:anyAttribute, `dict[str, str]`) and
-   xs:anyType elements holding a str.  A map comes back in the order the attributes are reported:
+(* ---- slice S5 (generic content), partial: attribute maps (xs:anyAttribute, `dict[str, str]`), wildcard
+   fields (xs:any) holding generic elements (AnyElement: name, attributes, text, nested generic children;
+   no tails, no text next to children) and xs:anyType elements holding a str.  A map comes back in the order the attributes are reported:
    the statement is about every event stream that reads as the document AND keeps the attribute
    order of the tree (`reads_o true`: what XML readers deliver; prefix maps and indentation white
    space stay free).  Keys: distinct, admitted by the namespace constraint of the field, not claimed
@@ -296,3 +298,20 @@ Theorem C01_xsi_type_dropped_refuted :
   /\ ParserCorr.outcome_eqb composition_xdrop (Parser.parse cfg_strict conv_c05 u_xdrop (Some root_xdrop) pevs_xdrop) = true.
 Proof. exact xsi_type_dropped_refuted. Qed.
 Print Assumptions C01_xsi_type_dropped_refuted.
+
+(* clause `map_value_ok` / `any_attr_ok` (known finding C01-F9, found while proving the attribute-map slice):
+   the value of an attribute-map entry (or of an attribute of a generic element) is written literally, but read
+   through ParserUtils.parse_any_attribute, which expands `prefix:local` when the prefix is bound - and the
+   writer binds ns0, ns1, ... itself: R(m={'k': 'ns0:x'}) with R in namespace urn:a comes back as
+   R(m={'k': '{urn:a}x'}).  The real handler events read as the tree the events mean, and the faithful parser
+   model returns another instance for them; with the colon removed the very same instance is inside the guards *)
+Theorem C01_any_attribute_prefix_refuted :
+  wf_model u_mapq root_mapq = true
+  /\ fits conv_c05 u_mapq ok_c05 py_isspace 1 root_mapq o_mapq = false
+  /\ fits conv_c05 u_mapq ok_c05 py_isspace 1 root_mapq o_mapq_plain = true
+  /\ (match expected_of conv_c05 (EventGen.generate false conv_c05 u_mapq o_mapq) with
+      | Some e => reads_b true e pevs_mapq | None => false end) = true
+  /\ ParserCorr.outcome_eqb (Parser.parse cfg_strict conv_c05 u_mapq (Some root_mapq) pevs_mapq) (Parser.Ok o_mapq []) = false
+  /\ (match Parser.parse cfg_strict conv_c05 u_mapq (Some root_mapq) pevs_mapq with Parser.Ok _ [] => true | _ => false end) = true.
+Proof. exact any_attribute_prefix_refuted. Qed.
+Print Assumptions C01_any_attribute_prefix_refuted.
